@@ -298,7 +298,7 @@ class SshHostKeyECDSABase(SshHostKeyBase):
                 parser['curve_identifier'].value.named_group,
                 parser['curve_data'],
             ))
-        except ValueError as e:
+        except (ValueError, OverflowError) as e:
             six.raise_from(InvalidValue(parser['curve_data'], cls, 'curve_data'), e)
 
         del parser['curve_identifier']
